@@ -18,7 +18,7 @@ pub fn run(ctx: &Ctx) -> i32 {
     );
     let table = report::section_table();
     let _ = table;
-    let n = ctx.tier.pick(3_000u64, 40_000u64);
+    let n = ctx.tier.pick(3_000u64, 1_000_000u64);
     let kk = ctx.tier.pick(8usize, 16usize);
     let distinct_orders = std::sync::Mutex::new(HashSet::<u64>::new());
     run_workload(ctx, &mut acc, "renderings", n, |k, rng, acc| {
